@@ -106,6 +106,10 @@ func genC13(tier string, run int, r *simcore.Rand) *harness.Plan {
 	nops := r.Range(4, 18)
 	ops := genOps(r, nops, pool, specs, false, weights)
 	for i := range ops {
+		if (ops[i].Kind == "page" || ops[i].Kind == "enum") && r.Bool(0.3) {
+			// the helper full scans use (sync, validation, reindex)
+			ops[i] = sim.Op{Kind: "enumall"}
+		}
 		if ops[i].Kind == "stat" && r.Bool(0.3) {
 			// batches wider than the stat gates: repeat the pool
 			ops[i].B = nil
@@ -122,6 +126,29 @@ func genC13(tier string, run int, r *simcore.Rand) *harness.Plan {
 		win = len(ops)
 	}
 	cc := c13Config{WinStart: r.Intn(len(ops) - win + 1), WinLen: win}
+	if hasType(root, "blobpacked") && r.Bool(0.5) {
+		// a file at the packing threshold, uploaded chunks first and file
+		// blob last, the packing receive inside the fault window: the
+		// packer's own lower-layer calls (zip upload, meta batch, removal of
+		// the loose copies) get their faults too
+		f := c04File{Name: "c13.dat", Size: (512 << 10) + r.Intn(4000), Chunk: []int{100000, 256 << 10}[r.Intn(2)], Salt: r.Uint64(), SameAs: -1}
+		cfg.Files = []c04File{f}
+		full := poolOf(&cfg)
+		at := r.Intn(len(ops) + 1)
+		var up []sim.Op
+		for i := len(specs); i < len(full); i++ {
+			up = append(up, sim.Op{Kind: "recv", B: []int{i}})
+		}
+		ops = append(ops[:at:at], append(up, ops[at:]...)...)
+		last := at + len(up) - 1 // the file blob's receive
+		cc.WinStart = last - r.Intn(2)
+		if cc.WinStart < 0 {
+			cc.WinStart = 0
+		}
+		if cc.WinStart+win > len(ops) {
+			cc.WinStart = len(ops) - win
+		}
+	}
 	cfg.C13 = &cc
 	p := &harness.Plan{Mode: "enumerate", Config: harness.MustJSON(cfg), Bubble: true}
 	p.LockYield = []int{0, 0, 30, 300}[r.Intn(4)]
